@@ -53,8 +53,8 @@ Proof.
   destruct H as [H|H]; [inversion H; subst; contradiction|auto].
 Qed.
 
-Theorem rl_relogin_resends_all : forall cfg evs,
-  let st := rl_run (rl_init cfg) evs in
+Theorem rl_relogin_resends_all : forall cfg ef er evs,
+  let st := rl_run (rl_init cfg ef er) evs in
   rl_phase_of st = PLogin ->
   let st' := rl_step st RLoginOk in
   rl_phase_of st' = PRunning /\
@@ -62,7 +62,7 @@ Theorem rl_relogin_resends_all : forall cfg evs,
     (forall n c, In (n, c) m <-> rl_lookup n (rl_cfg st) = Some c) /\
     (forall n c, In (n, c) (rl_cfg st) -> exists c', In (n, c') m).
 Proof.
-  intros cfg evs st Hp st'. unfold st', rl_step. rewrite Hp. simpl.
+  intros cfg ef er evs st Hp st'. unfold st', rl_step. rewrite Hp. simpl.
   split; [reflexivity|]. exists (rl_fresh (rl_cfg st)).
   repeat split; try reflexivity.
   - apply rl_fresh_spec.
@@ -73,31 +73,63 @@ Qed.
 Definition rl_alive (s : rl_svc) : Prop :=
   rl_phase_of s = PLogin \/ (rl_phase_of s = PRunning /\ exists m, rl_ctl s = Some m).
 
-Lemma rl_alive_step : forall s e, e <> RStop -> rl_alive s -> rl_alive (rl_step s e).
+(* the loop that is running or will run next does not exit on a failed login, nor will any later one *)
+Definition rl_safe (s : rl_svc) : Prop :=
+  rl_alive s /\ rl_exit_now s = false /\ rl_exit_re s = false.
+
+Lemma rl_safe_step : forall s e, e <> RStop -> rl_safe s -> rl_safe (rl_step s e).
 Proof.
-  intros s e He [H|[H [m Hm]]]; unfold rl_step; rewrite H; destruct e; try contradiction;
-    unfold rl_alive; cbn [rl_phase_of rl_ctl];
+  intros s e He [[H|[H [m Hm]]] [Hn Hr]]; unfold rl_step, rl_login_failed; rewrite H; destruct e; try contradiction;
+    unfold rl_safe, rl_alive; cbn [rl_phase_of rl_ctl rl_exit_now rl_exit_re]; try rewrite Hn; try rewrite Hr;
+    (split; [|split; first [reflexivity|assumption]]);
     first [ left; first [reflexivity|assumption]
           | right; split; [first [reflexivity|assumption]|try rewrite Hm; eauto] ].
 Qed.
 
-Lemma rl_alive_run : forall evs s, ~ In RStop evs -> rl_alive s -> rl_alive (rl_run s evs).
+Lemma rl_safe_run : forall evs s, ~ In RStop evs -> rl_safe s -> rl_safe (rl_run s evs).
 Proof.
   induction evs as [|e r IH]; intros s Hn Ha; simpl; auto.
   unfold rl_run in *. simpl. apply IH.
   - intro. apply Hn. right. auto.
-  - apply rl_alive_step; auto. intro. subst. apply Hn. left. reflexivity.
+  - apply rl_safe_step; auto. intro. subst. apply Hn. left. reflexivity.
 Qed.
 
+(* loginFailExit off: the client never gives up, from the very first attempt *)
 Theorem rl_never_gives_up : forall cfg evs,
   ~ In RStop evs ->
-  let st := rl_run (rl_init cfg) evs in
+  let st := rl_run (rl_init cfg false false) evs in
   rl_phase_of st = PLogin \/ (rl_phase_of st = PRunning /\ exists m, rl_ctl st = Some m).
 Proof.
-  intros cfg evs Hn. apply (rl_alive_run evs (rl_init cfg) Hn). left. reflexivity.
+  intros cfg evs Hn. apply (rl_safe_run evs (rl_init cfg false false) Hn).
+  repeat split. left. reflexivity.
 Qed.
 
-Theorem rl_session_end_relogin : forall cfg evs,
-  let st := rl_run (rl_init cfg) evs in
+(* whatever loginFailExit says: once one login has succeeded, no sequence of lost sessions, failed
+   or REFUSED logins and reloads makes the loop halt *)
+Theorem rl_never_gives_up_after_first_login : forall cfg ef pre post,
+  let s0 := rl_run (rl_init cfg ef false) pre in
+  rl_phase_of s0 = PLogin ->
+  ~ In RStop post ->
+  let st := rl_run (rl_step s0 RLoginOk) post in
+  rl_phase_of st = PLogin \/ (rl_phase_of st = PRunning /\ exists m, rl_ctl st = Some m).
+Proof.
+  intros cfg ef pre post s0 Hp Hn.
+  assert (Hre : forall evs s, rl_exit_re (rl_run s evs) = rl_exit_re s).
+  { induction evs as [|e r IH]; intros s; simpl; auto. unfold rl_run in *. simpl. rewrite IH.
+    unfold rl_step, rl_login_failed. destruct (rl_phase_of s); destruct e; reflexivity. }
+  apply (rl_safe_run post (rl_step s0 RLoginOk) Hn).
+  unfold rl_step. rewrite Hp. unfold rl_safe, rl_alive. cbn [rl_phase_of rl_ctl rl_exit_now rl_exit_re].
+  assert (Hr : rl_exit_re s0 = false) by (unfold s0; rewrite Hre; reflexivity).
+  rewrite Hr. repeat split. right. split; [reflexivity|eauto].
+Qed.
+
+(* by design: with loginFailExit set, a failure of the FIRST login loop stops the service *)
+Theorem rl_first_login_failure_exits : forall cfg er,
+  rl_phase_of (rl_step (rl_init cfg true er) RLoginFail) = PStopped /\
+  rl_phase_of (rl_step (rl_init cfg true er) RLoginRefused) = PStopped.
+Proof. intros. split; reflexivity. Qed.
+
+Theorem rl_session_end_relogin : forall cfg ef er evs,
+  let st := rl_run (rl_init cfg ef er) evs in
   rl_phase_of st = PRunning -> rl_phase_of (rl_step st RSessionEnd) = PLogin.
-Proof. intros cfg evs st H. unfold rl_step. rewrite H. reflexivity. Qed.
+Proof. intros cfg ef er evs st H. unfold rl_step. rewrite H. reflexivity. Qed.
